@@ -22,7 +22,8 @@ def main(tier):
                        'version, completion and self-update are not encoded (cobra generators write to the given io.Writer; version reaches the network)']
     jobs = []
     for L in range(1, 12 if tier == 'quick' else 12):
-        jobs.append(('util.VerifC15Renumber', dict(fixlen={'name': L}, unwind=40, exclude=exclude, timeout_ms=120000)))
+        for content in ((0, 1) if L != 11 else (0, 1, 2, 3)):
+            jobs.append(('util.VerifC15Renumber', dict(fixlen={'name': L}, params={'content': content}, unwind=40, exclude=exclude, timeout_ms=120000)))
     for L in range(1, 10 if tier == 'quick' else 11):
         jobs.append(('chore.VerifC15Copyright', dict(fixlen={'name': L}, unwind=40, timeout_ms=120000)))
         jobs.append(('cmd.VerifC15Format', dict(fixlen={'name': L}, unwind=60, timeout_ms=120000, hooks={'fixed_map_order': True})))
